@@ -238,6 +238,10 @@ macro_rules! forms {
             ("from_u64", D::from_u64(9).unwrap(), 9.0),
             ("from_u128", D::from_u128(10).unwrap(), 10.0),
             ("from_usize", D::from_usize(11).unwrap(), 11.0),
+            ("from_i128 beyond i64", D::from_i128(-(1i128 << 70)).unwrap(), -(2.0 as F).powi(70)),
+            ("from_u128 beyond u64", D::from_u128(1u128 << 100).unwrap(), (2.0 as F).powi(100)),
+            ("from_i64 min", D::from_i64(i64::MIN).unwrap(), -(2.0 as F).powi(63)),
+            ("from_u64 max", D::from_u64(u64::MAX).unwrap(), (2.0 as F).powi(64)),
             ("from_f32", D::from_f32(0.375).unwrap(), 0.375),
             ("from_f64", D::from_f64(-2.125).unwrap(), -2.125),
         ];
